@@ -127,6 +127,17 @@ FLOW = {
 }
 
 
+# list-based converters: ordinal of the item-converter closure and the item type
+LISTC = {
+    'convert_array': (2, 'ArrayItem', ['(', ')', ',', '']),
+    'convert_dict': (1, 'DictItem', ['(', ')', ',', '(:']),
+    'convert_destructuring': (1, 'DestructuringItem', ['(', ')', ',']),
+    'convert_params': (1, 'Param', ['(', ')', ',']),
+    'convert_parenthesized_impl': (0, 'Pattern', ['(', ')', '']),
+    'convert_code_block': (0, 'Expr', ['{', '}', '']),
+}
+
+
 def main():
     out = ['# GENERATED by contracts/gen_converters.py -- common contract bundle of the convert_* methods (do not edit by hand)', '']
     for (f, fn, p, kind) in T:
@@ -165,6 +176,14 @@ def main():
             out.append('  ensures')
             out.append('    - [producer_docs_closed C04 C06 C12] fitem.0 matches Some(rp) ==> doc_closed(rp.doc@, self.unit_s())')
             out.append('    proof: pf_leaf_text(%s); pf_children(%s); reveal_with_fuel(tr, 4); reveal_with_fuel(nest_ok, 4); lemma_repeat_doc_hardline(count_newlines_s(%s.text_s()), self.unit_s());' % (cp, cp, cp))
+        if fn in LISTC:
+            k, ty, lits = LISTC[fn]
+            out.append('    proof { %s reveal_with_fuel(tr, 4); }' % ' '.join('reveal_strlit("%s");' % l for l in lits))
+            out.append('@closure %d params "ctx: Context, node: %s<\'a>" ret "(d: ArenaDoc<\'a>)"' % (k, ty))
+            out.append('  requires')
+            out.append('    - node.wf() && tree_wf(node.node())')
+            out.append('  ensures')
+            out.append('    - [item_docs_closed C04 C06 C12] doc_closed(d@, self.unit_s())')
         out += ex.get('closures', [])
         out.append('@end')
         out.append('')
